@@ -23,9 +23,14 @@ input symbol):
   model value is [0,0,0] (= the determinantal-divisor invariants of C14, for relators over the
   letters of the presentation).
 
+* §6 `ptc_cover_group_presentation`: with C05's covering-space correspondence, the textbook
+  orbifold group of the RETURNED COVER is isomorphic to that presentation (oriented cover
+  connected): its abelian invariants are [0,0,0].
+
 Not theorems (Spec clauses on every explored case, `open_obligations` in conf/C15.json):
-π₁(cov) ≅ that stabiliser (covering-space correspondence), hence H₁(cov) = Z³; existence for
-every euclidean symbol; numbering independence.
+existence for every euclidean symbol; numbering independence; connectedness of the oriented
+cover of a connected symbol; the identification of `[0,0,0]` with `Abelianization ≃ Z³` in
+Mathlib's sense (uniqueness of the Smith form).
 -/
 import DSymVerif.Proofs.Delaney3d
 import DSymVerif.Proofs.Delaney3dOrders
@@ -600,6 +605,7 @@ theorem ptc_selected_subgroup_of_orbifold_group (s cov : DSymData) (hs : ValidSy
       (hfg : FG.fundamentalGroup oc = .ok fg) (hV : CosetP.Valid t fg.nrGenerators fg.relators [])
       (gens srels : List (List Int)),
       orientedCover s = .ok oc ∧ cov.size = t.size * oc.size ∧
+      Covers.coverForTable oc (tableData (tbl fg.nrGenerators t)) fg.edgeToWord = .ok cov ∧
       Stab.stabilizer 0 fg.relators (Cosets.Table.ofView fg.nrGenerators t) = .ok (gens, srels) ∧
       Inv.abelianInvariants gens.length srels = .ok [0, 0, 0] ∧
       ((MulAction.stabilizer (Equiv.Perm (Fin t.size)) (⟨0, hV.pos⟩ : Fin t.size)).comap
@@ -608,7 +614,7 @@ theorem ptc_selected_subgroup_of_orbifold_group (s cov : DSymData) (hs : ValidSy
         Function.Injective fT ∧
         fT.range = (MulAction.stabilizer (Equiv.Perm (Fin t.size)) (⟨0, hV.pos⟩ : Fin t.size)).comap
           (CoversP.rhoT hsoc hdim hfg hV) := by
-  obtain ⟨oc, fg, t, hvt, gens, srels, hoc, hfg, _, hsize, hst, hinv, hidx, ⟨f, hinj, hrange⟩, _⟩ :=
+  obtain ⟨oc, fg, t, hvt, gens, srels, hoc, hfg, hcov, hsize, hst, hinv, hidx, ⟨f, hinj, hrange⟩, _⟩ :=
     ptc_selected_subgroup_is_Z3_abelianised s cov hs.toValidTables hsz hF h
   obtain ⟨⟨_, _, _, _, _, _, dim3, _, hoc2, _⟩⟩ := ptc_run s cov h
   have hdims : 1 ≤ s.dim := by rw [dim3]; decide
@@ -623,7 +629,58 @@ theorem ptc_selected_subgroup_of_orbifold_group (s cov : DSymData) (hs : ValidSy
   have hV : CosetP.Valid t fg.nrGenerators fg.relators [] := CosetP.valid_of_validTable hvt
   have hlet := (FGP.fundamentalGroup_letters oc fg hfg).1
   obtain ⟨h1, fT, h2, h3⟩ := transfer_stabiliser hlet hV (FGP.presIso hsoc hocd hfg) f hinj hrange hidx
-  exact ⟨oc, fg, t, hsoc, hocd, hfg, hV, gens, srels, hoc, hsize, hst, hinv, h1, fT, h2, h3⟩
+  exact ⟨oc, fg, t, hsoc, hocd, hfg, hV, gens, srels, hoc, hsize, hcov, hst, hinv, h1, fT, h2, h3⟩
+
+/-- **ptc_cover_group_presentation** — the orbifold group of the RETURNED COVER.
+    Whenever the model returns `Some(cov)` for a valid D-symbol whose oriented cover `oc` is
+    connected: the textbook orbifold fundamental group `TGroup cov` of the returned cover (C09) is
+    **isomorphic to the presented group `⟨gens | srels⟩`** that the model of `stabilizer` returned
+    for the selected table and on which the selection test was evaluated — the model value of
+    `abelian_invariants(gens, srels)` is `[0, 0, 0]`, which (C14 `abelian_invariants_correct`, for
+    relators over the returned generators) is the determinantal-divisor definition of the
+    abelian invariants: free rank 3, no torsion.  So the first homology of the orbifold group of
+    the returned cover is Z³ in that sense.
+    Composition of: C05 `cover_group_iso_stabiliser_mono` (covering-space correspondence:
+    `TGroup cov` embeds in `TGroup oc` onto the stabiliser `K` of row 0 of the monodromy action),
+    `ptc_selected_subgroup_of_orbifold_group` (`⟨gens | srels⟩` embeds in `TGroup oc` onto the same
+    `K`: C13 `stabilizer_presentation_iso`, C09 `presents_orbifold_group`, the re-indexing), C14. -/
+theorem ptc_cover_group_presentation (s cov : DSymData) (hs : ValidSym s) (hsz : 1 ≤ s.size)
+    (hF : ∀ oc fg, orientedCover s = .ok oc → FG.fundamentalGroup oc = .ok fg → FuelOK fg)
+    (hconn : ∀ oc, orientedCover s = .ok oc → oc.view.isConnected = true)
+    (h : pseudoToroidalCover s = .ok (some cov)) :
+    ∃ (gens srels : List (List Int)),
+      Inv.abelianInvariants gens.length srels = .ok [0, 0, 0] ∧
+      ((∀ w ∈ srels, ∀ g ∈ w, Inv.InRange gens.length g) →
+        SpecC14.expected gens.length srels = [0, 0, 0]) ∧
+      Nonempty (FGP.TGroup cov ≃* PresentedGroup (CosetP.relSet gens.length srels)) := by
+  obtain ⟨oc, fg, t, hsoc, hdim, hfg, hV, gens, srels, hoc, _, hcov, _, hinv, _, fT, hfTinj, hfTrange⟩ :=
+    ptc_selected_subgroup_of_orbifold_group s cov hs hsz hF h
+  have hocsz : 1 ≤ oc.size := by
+    obtain ⟨oc', hoc', _, _, hocsize⟩ := C05.oriented_cover_oriented s hs.toValidTables hsz
+      (by obtain ⟨⟨_, _, _, _, _, _, dim3, _⟩⟩ := ptc_run s cov h; rw [dim3]; decide)
+    have : oc = oc' := by
+      have := hoc
+      rw [hoc'] at this
+      exact (Outcome.ok.inj this).symm
+    rw [this, hocsize]; split <;> omega
+  have hdef : Covers.allTracesDefined oc (tableData (tbl fg.nrGenerators t)) fg.edgeToWord = true := by
+    have hc := hcov
+    unfold Covers.coverForTable at hc
+    split at hc
+    · assumption
+    · cases hc
+  have hc : cover oc t.size (Covers.sheetMap (tableData (tbl fg.nrGenerators t)) fg.edgeToWord) = .ok cov := by
+    rw [← hcov, Covers.coverForTable_eq_cover hdef, tableData_len]
+  obtain ⟨_, φ, _, _, hφinj, hφrange⟩ :=
+    CoversP.cover_group_iso_stabiliser_mono hsoc hocsz hdim (hconn oc hoc) hfg hV
+      (sheetMap_agrees hsoc hdim hfg hV) hc
+  refine ⟨gens, srels, hinv, ?_, ?_⟩
+  · intro hin
+    have := C14.abelian_invariants_correct gens.length srels hin
+    rw [hinv] at this
+    exact (Outcome.ok.inj this).symm
+  · exact ⟨(MonoidHom.ofInjective hφinj).trans
+      ((MulEquiv.subgroupCongr (hφrange.trans hfTrange.symm)).trans (MonoidHom.ofInjective hfTinj).symm)⟩
 
 /-! ### 7. the two conclusions as predicates (used by Props/C17) -/
 
